@@ -97,3 +97,13 @@ Fixpoint run (n : nat) (x : bdd) (e : expr) {struct n} : option bdd :=
 
 Definition run_infer (n : nat) (e : expr) (v : nat) : option (bool * bool) :=
   match run n F e with Some a => Some (binfer a v) | None => None end.
+
+(** Suite S-set: a history of BDDSet operations on two sets sharing an environment, from two empty
+    sets: the answers of the queries and the two final diagrams (model) / the reference answers *)
+From Rsbdd Require Import Sets.BddSet.
+Definition set_final (bits : nat) (os : list sop) : bdd * bdd :=
+  fold_left (fun st o => fst (step bits st o)) os (F, F).
+Definition set_run (bits : nat) (os : list sop) : list (option bool) * (bdd * bdd) :=
+  (runs bits (F, F) os, set_final bits os).
+Definition set_ref (os : list sop) : list (option bool) :=
+  rruns ((fun _ => false), (fun _ => false)) os.
